@@ -28,6 +28,21 @@ TEMPLATES = {
     "gld":  [A.estmt(A.asg(V("x"), V("g")))],           # ... and a fourth one: x = g
 }
 
+# second alphabet (combined among themselves and with st / ld only, to keep the family small): whole-aggregate copies followed
+# by an element / member store of a literal (the store's operand load directly follows the copy's store), and sibling blocks
+# that declare the same name, the second one without initialiser (a declaration is an instruction between store and load)
+TEMPLATES2 = {
+    "acp":  [A.estmt(A.asg(V("u"), V("t")))],
+    "ust":  [A.estmt(A.asg(A.idx(V("u"), L(0)), L(5)))],
+    "tst":  [A.estmt(A.asg(A.idx(V("t"), L(0)), L(7)))],
+    "scp":  [A.estmt(A.asg(V("s2"), V("s")))],
+    "s2st": [A.estmt(A.asg(A.mem(V("s2"), "a"), L(9)))],
+    "blk1": [A.block([A.decl("w", INT, V("x")), A.estmt(A.asg(V("y"), B("+", V("y"), V("w"))))])],
+    "blk2": [A.block([A.decl("w", INT), A.estmt(A.asg(V("y"), B("+", V("y"), V("w"))))])],
+    "blk3": [A.block([A.decl("w", INT, V("a"))])],
+    "blk4": [A.block([A.decl("w", INT), A.ret(V("w"))])],
+}
+
 # longer copy chains (every statement reads the variable the previous one wrote), included at every length bound
 EXTRA = [("st", "ld", "gst", "gld"), ("st", "ld", "gst", "gld", "ld"), ("st", "ld", "gst", "gld", "ld", "gst", "gld", "if"),
          ("ld", "gst", "gld", "mst"), ("st", "ld", "gst", "gld", "call"), ("add", "ld", "gst", "gld", "ix")]
@@ -38,10 +53,15 @@ def programs(maxlen):
     out = []
     idf = A.func("id", [("q", INT)], INT, A.block([A.estmt(A.asg(V("q"), B("+", V("q"), L(1)))), A.ret(V("q"))]))
     for n in range(1, maxlen + 1):
-        for seq in list(itertools.product(names, repeat=n)) + (EXTRA if n == maxlen else []):
+        second = [q for q in itertools.product(list(TEMPLATES2) + ["st", "ld"], repeat=min(n, 3)) if any(nm in TEMPLATES2 for nm in q)] if n <= 3 else []
+        for seq in list(itertools.product(names, repeat=n)) + (EXTRA if n == maxlen else []) + second:
             body = [A.decl("x", INT, V("a")), A.decl("y", INT, L(1)), A.decl("f", FLOAT, L(2)), A.decl("s", S0), A.decl("t", A.arr(INT, [2]))]
+            if any(nm in TEMPLATES2 for nm in seq):
+                body += [A.decl("u", A.arr(INT, [2])), A.decl("s2", S0)]
             for nm in seq:
-                body += TEMPLATES[nm]
+                body += TEMPLATES[nm] if nm in TEMPLATES else TEMPLATES2[nm]
+            if any(nm in TEMPLATES2 for nm in seq):
+                body.append(A.estmt(A.asg(V("y"), B("+", B("*", V("y"), L(10)), B("+", B("+", A.idx(V("u"), L(0)), A.mem(V("s2"), "a")), A.mem(V("s"), "a"))))))
             body.append(A.ret(B("+", B("*", V("x"), L(100)), B("+", V("y"), A.idx(V("t"), L(0))))))
             prog = A.prog([("g", INT)], [idf, A.func("f", [("a", INT)], INT, A.block(body), True)], [S0])
             out.append(("-".join(seq), prog))
